@@ -23,11 +23,10 @@
 (* A program is [lvl, ctx, ev, hooks, msg]: ctx and ev are sequences of    *)
 (* structural operation classes (Ops), hooks a sequence of hook kinds.     *)
 (***************************************************************************)
-EXTENDS Integers, Sequences, TLC
+EXTENDS Integers, Sequences, TLC, SequencesExt
 
 CONSTANTS FixErrsDelim, FixStackNil, FixEmbedEmpty
 
-Last(s) == s[Len(s)]
 
 \* ---- the encoder's rules (internal/json)
 \* base.go AppendKey: comma unless the last byte is '{'
@@ -79,8 +78,12 @@ ErrStackObjEv(b) == Scalar(ObjEv(b, 1))
 ErrStackObjCtx(c) == Scalar(ObjCtx(c, 1))
 
 Ops == {"scalar", "nofield", "dict0", "dict1", "dict2", "obj0", "obj2", "objnil", "embed0", "embed1", "embed2", "embednil",
-        "arr0", "arr2", "arrobj", "slice0", "slice2", "everrs0", "everrs2", "ferrs0", "ferrs1", "ferrs2",
+        "arr0", "arr2", "arrobj", "slice0", "slice2", "slice24", "slice256", "everrs0", "everrs2", "ferrs0", "ferrs1", "ferrs2",
         "ferrstackNil", "ferrstackStr", "fields2", "fieldsobj", "func1", "errstackNil", "errstackStr", "errstackObj"}
+
+\* without the two large typed slices (they make every rendering long; they are exercised in their own enumeration)
+CoreOps == Ops \ {"slice24", "slice256"}
+BigOps == {"scalar", "dict1", "slice24", "slice256"}
 
 Apply(op, b, isCtx) ==
   CASE op = "scalar" -> Scalar(b) [] op = "nofield" -> b
@@ -93,6 +96,8 @@ Apply(op, b, isCtx) ==
     [] op = "embednil" -> (IF isCtx THEN EmbedCtx(b, 0) ELSE b)
     [] op = "arr0" -> ArrF(b, 0, 0) [] op = "arr2" -> ArrF(b, 2, 0) [] op = "arrobj" -> ArrF(b, 1, 2)
     [] op = "slice0" -> SliceF(b, 0) [] op = "slice2" -> SliceF(b, 2)
+    \* element counts on both sides of the 23/24 and 255/256 boundaries of CBOR array heads
+    [] op = "slice24" -> SliceF(b, 24) [] op = "slice256" -> SliceF(b, 256)
     [] op = "everrs0" -> ArrF(b, 0, 0) [] op = "everrs2" -> ArrF(b, 2, 0)
     [] op = "ferrs0" -> FErrs(b, 0) [] op = "ferrs1" -> FErrs(b, 1) [] op = "ferrs2" -> FErrs(b, 2)
     [] op = "ferrstackNil" -> FErrStack(b, TRUE) [] op = "ferrstackStr" -> FErrStack(b, FALSE)
@@ -118,34 +123,33 @@ Render(p) == LET c == IF p.with THEN CtxOf(p.ctx) ELSE <<>>
 -----------------------------------------------------------------------------
 \* Contract, part 1 (C01): RFC 8259 object grammar over tokens, as a stack automaton.
 Pop(stk) == SubSeq(stk, 1, Len(stk) - 1)
-RECURSIVE Scan(_, _, _, _)
-Scan(s, i, st, stk) ==
-  IF i > Len(s) THEN st = "end"
-  ELSE LET t == s[i] IN
-    CASE st = "start" -> t = "{" /\ Scan(s, i+1, "key_or_close", <<"o">>)
-      [] st = "key_or_close" -> \/ (t = "K" /\ Scan(s, i+1, "colon", stk))
-                                \/ (t = "}" /\ Scan(s, i+1, "after", Pop(stk)))
-      [] st = "key" -> t = "K" /\ Scan(s, i+1, "colon", stk)
-      [] st = "colon" -> t = ":" /\ Scan(s, i+1, "value", stk)
-      [] st = "value" -> \/ (t = "V" /\ Scan(s, i+1, "after", stk))
-                         \/ (t = "{" /\ Scan(s, i+1, "key_or_close", Append(stk, "o")))
-                         \/ (t = "[" /\ Scan(s, i+1, "value_or_close", Append(stk, "a")))
-      [] st = "value_or_close" -> \/ (t = "]" /\ Scan(s, i+1, "after", Pop(stk)))
-                                  \/ (t = "V" /\ Scan(s, i+1, "after", stk))
-                                  \/ (t = "{" /\ Scan(s, i+1, "key_or_close", Append(stk, "o")))
-                                  \/ (t = "[" /\ Scan(s, i+1, "value_or_close", Append(stk, "a")))
-      [] st = "after" -> IF stk = <<>> THEN t = "NL" /\ Scan(s, i+1, "end", stk)
-                         ELSE IF Last(stk) = "o"
-                              THEN (t = "," /\ Scan(s, i+1, "key", stk)) \/ (t = "}" /\ Scan(s, i+1, "after", Pop(stk)))
-                              ELSE (t = "," /\ Scan(s, i+1, "value", stk)) \/ (t = "]" /\ Scan(s, i+1, "after", Pop(stk)))
-      [] OTHER -> FALSE
-WellFormedTokens(s) == Scan(s, 1, "start", <<>>)
+\* One step of the automaton; acc = [st: expectation, stk: open containers ("o" / "a"), ok]. A fold, not a
+\* recursion: recordings of mutated code can carry thousands of tokens.
+StepScan(acc, t) ==
+  IF ~acc.ok THEN acc
+  ELSE LET st == acc.st  stk == acc.stk
+           to(s2, k2) == [st |-> s2, stk |-> k2, ok |-> TRUE]
+           bad == [acc EXCEPT !.ok = FALSE]
+           open == IF t = "{" THEN to("key_or_close", Append(stk, "o")) ELSE to("value_or_close", Append(stk, "a"))
+       IN CASE st = "start" -> IF t = "{" THEN to("key_or_close", <<"o">>) ELSE bad
+            [] st = "key_or_close" -> IF t = "K" THEN to("colon", stk) ELSE IF t = "}" THEN to("after", Pop(stk)) ELSE bad
+            [] st = "key" -> IF t = "K" THEN to("colon", stk) ELSE bad
+            [] st = "colon" -> IF t = ":" THEN to("value", stk) ELSE bad
+            [] st = "value" -> IF t = "V" THEN to("after", stk) ELSE IF t \in {"{", "["} THEN open ELSE bad
+            [] st = "value_or_close" -> IF t = "]" THEN to("after", Pop(stk)) ELSE IF t = "V" THEN to("after", stk)
+                                        ELSE IF t \in {"{", "["} THEN open ELSE bad
+            [] st = "after" -> IF stk = <<>> THEN (IF t = "NL" THEN to("end", stk) ELSE bad)
+                               ELSE IF Last(stk) = "o"
+                                    THEN (IF t = "," THEN to("key", stk) ELSE IF t = "}" THEN to("after", Pop(stk)) ELSE bad)
+                                    ELSE (IF t = "," THEN to("value", stk) ELSE IF t = "]" THEN to("after", Pop(stk)) ELSE bad)
+            [] OTHER -> bad
+WellFormedTokens(s) == LET r == FoldLeft(StepScan, [st |-> "start", stk |-> <<>>, ok |-> TRUE], s) IN r.ok /\ r.st = "end"
 
 \* Contract, part 2 (C03): member names in document order with nesting depth.
 \* key names: the n-th op of a phase is named by names[n]; its sub-fields append "a", "b".
 Sub(id, k, d) == [i \in 1..k |-> <<d, id \o (IF i = 1 THEN "a" ELSE "b")>>]
 KeysOf(op, id, d) ==
-  CASE op \in {"scalar", "objnil", "arr0", "arr2", "slice0", "slice2", "everrs0", "everrs2", "ferrs0", "ferrs1", "ferrs2",
+  CASE op \in {"scalar", "objnil", "arr0", "arr2", "slice0", "slice2", "slice24", "slice256", "everrs0", "everrs2", "ferrs0", "ferrs1", "ferrs2",
                "ferrstackNil", "errstackNil"} -> << <<d, id>> >>
     [] op \in {"nofield", "embed0", "embednil"} -> <<>>
     [] op = "dict0" -> << <<d, id>> >> [] op = "dict1" -> << <<d, id>> >> \o Sub(id, 1, d + 1) [] op = "dict2" -> << <<d, id>> >> \o Sub(id, 2, d + 1)
